@@ -84,6 +84,10 @@ def translate(repo):
     if not m:
         raise TranslateError("TextFile::text(): `int n = (int)(size() & <mask>)` not found")
     mask = int(m.group(1), 0)
+    if not flat.startswith("{if(_file){flush();returnTextFile(_path).text();}_info.clear();intn=(int)(size()&"):
+        raise TranslateError("TextFile::text() no longer starts with: open object => flush and TextFile(_path).text(); else _info.clear(); n = size() & mask")
+    if "Stringtext;if(!open(READ)){returntext;}bytehead[8];" not in flat:
+        raise TranslateError("TextFile::text(): `String text; if (!open(READ)) return text;` not found")
     m = re.search(r"if\(n>=(\d+)\)", flat)
     if not m or int(m.group(1)) != 2:
         raise TranslateError("TextFile::text(): BOM sniffing guard `if (n >= 2)` not found")
@@ -141,15 +145,21 @@ def translate(repo):
         b = _flat(cparse.find_function(fc, fn_re))
         if needle not in b:
             raise TranslateError("File.cpp: %s no longer reads `%s`" % (what, needle))
-    has(r"ByteArray\s+File::content\s*\(\s*\)\s*\{", "returnfirstBytes((int)size());", "File::content()")
+    has(r"ByteArray\s+File::content\s*\(\s*\)\s*\{",
+        "{if(_file){flush();returnFile(_path).content();}_info.clear();returnfirstBytes((int)size());}", "File::content()")
     has(r"ByteArray\s+File::firstBytes\s*\(\s*int\s+n\s*\)\s*\{",
-        "ByteArraydata(n);if(!_file&&!open(_path)){data.clear();returndata;}data.resize(read(&data[0],n));returndata;", "File::firstBytes()")
+        "{if(_file){flush();returnFile(_path).firstBytes(n);}ByteArraydata(n);if(!open(_path)){data.clear();returndata;}data.resize(read(&data[0],n));returndata;}",
+        "File::firstBytes()")
     has(r"bool\s+File::put\s*\(\s*const\s+ByteArray\s*&\s*data\s*\)\s*\{",
         "if(!_file&&!open(_path,WRITE))returnfalse;returnwrite(data.data(),data.length())==data.length();", "File::put()")
     has(r"void\s+File::close\s*\(\s*\)\s*\{", "if(_file)fclose(_file);_file=0;_info=FileInfo();", "File::close() (closes the handle and discards the cached stat information)")
-    has(r"Long\s+File::size\s*\(\s*\)\s*const\s*\{", "if(!_info)_info=getFileInfo(_path);return_info.size;", "File::size()")
+    has(r"Long\s+File::size\s*\(\s*\)\s*const\s*\{", "{if(_file){fflush(_file);_info=getFileInfo(_path);}elseif(!_info)_info=getFileInfo(_path);return_info.size;}", "File::size()")
     if "_info" in _flat(body):
         raise TranslateError("File::open now touches the cached stat information `_info` (the model keeps it across open())")
+    if not _flat(body).startswith('{if(name=="")returnfalse;if(_file)close();'):
+        raise TranslateError("File::open no longer closes the handle the object already has (`if(_file) close();`)")
+    if "File(constString&name,OpenModemode):_file(0),_path(name),_endian(ENDIAN_NATIVE){open(name,mode);}" not in _flat(fh):
+        raise TranslateError("File.h: File(name, mode) no longer initialises _file before open()")
     fhf = _flat(fh)
     for needle, what in (("boolexists()const{_info.clear();returncreationDate().time()!=0;}", "File::exists()"),
                          ("boolisFile()const{returncreationDate().time()!=0&&!isDirectory();}", "File::isFile()"),
@@ -320,6 +330,25 @@ def reference(line):
         if op == "xput":
             b = tok_bytes(t[2])
             return "%d %s raw=1" % (len(b), show_bytes(b))
+        if op in ("xtwice", "xputread", "xreopen", "xstale", "xstalesize"):
+            # whole-file readers of ONE object: asked twice, after a lazily opening writer, after reopening, after another writer
+            b = tok_bytes(t[-1])
+            if op == "xstalesize":
+                return str(len(b))
+            w = b
+            if t[1] == "t":
+                if len(b) >= 2 and b[:2] in (b"\xff\xfe", b"\xfe\xff"):
+                    return None
+                w = ref_text(b)
+                if w is None:
+                    return None
+            if op == "xtwice":
+                return "%s %s %s %s" % (show_bytes(w), show_bytes(w), show_bytes(b[:2]), show_bytes(w))
+            if op == "xputread":
+                return "%d %s %d" % (len(b), show_bytes(w), 2 * len(b))
+            if op == "xreopen":
+                return "1 %s %s" % (show_bytes(w), show_bytes(b))
+            return show_bytes(w)
         if op == "xobj":
             # one object: open, write, query while open, write, close -> size(), [text()], content() of the same object
             b = tok_bytes(t[4]) + tok_bytes(t[5])
@@ -343,6 +372,8 @@ def reference(line):
 
 
 KNOWN = [
+    {"key": "stale-size-closed-object", "desc": "size() of an object that is not open answers from the size it cached before another object changed the file",
+     "case": ["xstalesize f 6162 616263646566"]},
     {"key": "utf16-crlf-fold", "desc": "UTF-16 BOM text containing CR LF is returned with LF only",
      "case": ["xtext fffe61000d000a006200", "xtext feff0061000d000a0062"]},
 ]
@@ -639,17 +670,29 @@ def gen(rng, tier):
                                               btok(rng, n1, nulfree=True), btok(rng, n2, nulfree=True))])
     for i in range(320 if quick else 5000):
         cases.append(gen_obj_history(rng))
+    # whole-file readers of one object: twice, after a lazily opening writer, after reopening, after another writer
+    for i in range(160 if quick else 2500):
+        k = rng.choice("ft")
+        n = rng.choice([0, 1, 2, 3, 5, 100, 4096, 5000, 70000])
+        pre = rng.choice([b"", b"", b"\xef\xbb\xbf", b"\xef\xbb", b"\xef"]) if k == "t" else b""
+        body = hexs(pre + bytes(rng.randrange(1, 256) for _ in range(n))) if n <= 100 else btok(rng, n, nulfree=True)
+        c = ["%s %s %s" % (rng.choice(["xtwice", "xputread", "xreopen"]), k, body)]
+        c.append("xstale %s %s %s" % (k, btok(rng, rng.choice([0, 2, 10, 5000]), nulfree=True), btok(rng, rng.choice([0, 1, 6, 100, 9000]), nulfree=True)))
+        cases.append(c)
     return cases
 
 
 # Protocol of the h-operations (persistent objects hnew/hopen/hclose/hflush/hw/happ/hput/hsh/hsize/hexists/hisfile/hisdir/hmtime/
 # hcontent/hfirst/hr/htext/hlines), applied identically by harness/c17.cpp and lean/Driver/C17.lean from the operation history alone:
-#  * an object is DIRTY after a write through it until it is flushed or closed; while a path has a dirty object, how much is on disk is
-#    stdio's business (not the property's): sizes of that path are printed `?`, reads of it are refused (`err dirty`);
-#  * a stat-backed query on an object while its path is dirty makes the object POISONED (its cache holds an undetermined size): its
-#    hsize prints `?`, reads through it are refused (`err poisoned`) — until close(), which must discard the cache (the property);
-#  * text()/lines() leave the object SPENT (position not modelled) until it is closed or reopened; a reader whose path was written
-#    since it was opened is STALE; two writers on one path are refused (`err busy`); hopen on an open object is close() + open();
+#  * an object is DIRTY after a write through it until it is flushed or closed, or until its own size()/content()/text()/firstBytes()
+#    flush it; while ANOTHER object of the path is dirty, how much is on disk is stdio's business (not the property's): sizes of that
+#    path are printed `?`, reads of it are refused (`err dirty`); the writing object itself is always answered exactly;
+#  * a stat-backed query on a CLOSED object while its path is dirty makes it POISONED (its cache holds an undetermined size): its
+#    hsize prints `?` until close()/content()/text() discard the cache or the object is open (an open object asks again);
+#  * text()/lines() through the object's own handle leave it SPENT (position not modelled) for read()/lines() until it is closed or
+#    reopened; a reader whose path was written since it was opened is STALE for read()/lines(); content()/text()/firstBytes() of an
+#    open object go through a fresh handle and are never refused for that; two writers on one path are refused (`err busy`);
+#    hopen on an open object is a plain open() (the library closes the old handle itself);
 #  * observations through temporaries (raw size content text lines exists first) leave the objects alone, every other non-h operation
 #    calls close() on all of them first.
 OBJ_SIZES = [0, 1, 2, 3, 100, 255, 1000, 4095, 4096, 4097, 5000, 8191, 8192, 8193, 12288, 70000, 100000]
@@ -696,10 +739,16 @@ def gen_obj_history(rng):
                 c.append(rng.choice(H_QUERIES) + " 0")
             if rng.random() < 0.2:
                 c.append("size " + main)
+            if rng.random() < 0.3:
+                c.append(rng.choice(["hcontent 0", "hfirst 0 %d" % rng.choice([0, 2, 5000]), "htext 0" if k == "t" else "hcontent 0", "hsize 0"]))
+        if rng.random() < 0.25:
+            c += ["hsize 0", "hcontent 0", "hcontent 0"]         # still open for writing: answered through a fresh handle
+        if rng.random() < 0.2:
+            c += ["hopen 0 r", "hcontent 0", "hfirst 0 3"]        # reopened without close(): nothing may be lost
         c.append("hclose 0")
-        tail = ["hsize 0", "hcontent 0", "raw " + main, "size " + main, "content " + main]
+        tail = ["hsize 0", "hcontent 0", "hcontent 0", "hfirst 0 4", "raw " + main, "size " + main, "content " + main]
         if k == "t":
-            tail = ["hsize 0", rng.choice(["htext 0", "hlines 0", "hcontent 0"]), "raw " + main, "text " + main]
+            tail = ["hsize 0", rng.choice(["htext 0", "hlines 0", "hcontent 0"]), rng.choice(["htext 0", "hcontent 0"]), "raw " + main, "text " + main]
         if rng.random() < 0.3:
             tail.insert(0, rng.choice(["hexists 0", "hisfile 0"]))
         c += tail
@@ -707,7 +756,7 @@ def gen_obj_history(rng):
             # reopen the same object and go round again
             c.append("hopen 0 " + rng.choice(["a", "w", "r"]))
             if c[-1].endswith("r"):
-                c += ["hr 0 %d" % rng.choice([1, 100, 4096, 100000]), "hsize 0", "hclose 0", "hsize 0"]
+                c += ["hr 0 %d" % rng.choice([1, 100, 4096, 100000]), "hfirst 0 2", "hcontent 0", "hr 0 3", "hsize 0", "hclose 0", "hsize 0"]
             else:
                 c += [_hwrite(rng, 0, k), rng.choice(H_QUERIES) + " 0", "hclose 0", "hsize 0", "hcontent 0", "raw " + main]
         return c
@@ -992,7 +1041,8 @@ LEVEL_TEXT = ("Proved in Lean 4 about the executable model the driver runs (AslM
               "real libc by the correspondence check (K), and an independent python reference judges lines/text/round trips/copy/move.")
 LEVEL_TEXT += (" Persistent objects (lazily opened handle + cached stat information, transcribed from File.h/File.cpp/TextFile.cpp): after "
                "close() every object, whatever it cached and wherever its handle stood, answers size/content/firstBytes/lines/text from the "
-               "path's current bytes (obj_after_close); stat-backed queries interleaved with writes on an open object change neither disk "
+               "path's current bytes (obj_after_close), and so do content/text/firstBytes of an object in ANY state — open in any mode at any "
+               "position, anything cached — and size() of an open object (obj_reads); stat-backed queries interleaved with writes on an open object change neither disk "
                "nor handle (obj_history); open for WRITE, any sequence of writes and queries, close: size() is the number of bytes written "
                "and content() exactly those bytes (obj_write_query_close).")
 LEVEL_TEXT += (" End to end: after any history of writers, if the reference store holds c then a fresh object returns c / c.length / "
@@ -1005,11 +1055,13 @@ LEVEL_NOTE = ("Hypotheses (modelled, exercised by K, not verified): stdio and PO
               "delivery by fclose, fgets/fread/feof, stat size, rename/EXDEV/unlink); files are observed after the writer is closed (a still-open "
               "writer's buffered bytes and its cached size are not an `afterwards` observation); the line theorems assume NUL-free content "
               "(readLine measures chunks with strlen; the model transcribes that and K covers NUL content, but no theorem speaks about it) and "
-              "files are < 2 GiB (text() masks the size). What size() answers while an object has unflushed writes is not "
-              "compared (printed `?` by both sides; see the protocol comment in tools/props/c17.py); an object that cached the size while closed "
-              "and is never closed keeps answering from that cache when another object changes the file (documented state of File, modelled "
-              "faithfully, no theorem claims otherwise); a second content() on an object left open by the first reads from the handle's "
-              "position. Partial: text_utf16_partial excludes "
+              "files are < 2 GiB (text() masks the size). What another object's size() answers while a writer has unflushed data is not "
+              "compared (printed `?` by both sides; the writer itself flushes in size()/content()/text()/firstBytes() and is compared; see the "
+              "protocol comment in tools/props/c17.py). Known finding stale-size-closed-object: size() of an object that is NOT open answers "
+              "from the size it cached before another object changed the file (the cache exists so that Directory listings need no stat per "
+              "file; exists()/close()/content()/text() discard it) — transcribed in the model, KNOWN probe xstalesize, obj_reads leaves "
+              "exactly that case out; lines()/read() of an open object continue from its position (by design: remaining lines). "
+              "Partial: text_utf16_partial excludes "
               "exactly the texts with an adjacent CR LF (known finding utf16-crlf-fold: deliberate folding in TextFile::text(), "
               "text_utf16_crlf_counterexample); paths are abstract (4 names in 2 directories: no symlinks/hard links, permissions or disk-full "
               "errors, so the failing-copy branch of the EXDEV move is in the model but never taken by K); printf/scanf/operator>> of "
@@ -1021,4 +1073,8 @@ LEVEL_NOTE = ("Hypotheses (modelled, exercised by K, not verified): stdio and PO
               "the bound. Repaired in /repo for this property: copy onto itself truncated "
               "the file (576b460); cross-device move returned false and removed the source unconditionally (a7085af); readLine read one byte "
               "before its buffer on a line starting with NUL (d08b735, outside the property's NUL-free domain); text() compared "
-              "uninitialised bytes with the byte-order marks when the file is shorter than the object's cached size (a78e103).")
+              "uninitialised bytes with the byte-order marks when the file is shorter than the object's cached size (a78e103); size() of an "
+              "open object ignored what was written through it and content()/text() used a stale cached size (ae75f36); content()/text()/"
+              "firstBytes() of an object that is already open read from its current position, and returned nothing when it was open for writing "
+              "(b600b6e, 4c57e14: they now flush and read through a separate handle); open() on an open object leaked the old handle with its "
+              "unflushed data (a48095a).")
